@@ -4,6 +4,7 @@
 ID=$1; shift
 P=/verif/seeded/$ID/patch.diff
 cd /verif
+export VERIF_EVIDENCE_DIR=/tmp/evidence_trials
 git -C /repo diff --quiet || { echo "/repo has uncommitted changes"; exit 2; }
 git -C /repo apply $P || { echo "patch does not apply"; exit 2; }
 for c in "$@"; do
